@@ -43,10 +43,12 @@ def bound_text(tier):
 
 def setup():
     env.setup()
+    from checks import c16_frontends as c16
+    c16.setup()
 
 
 def blocks(tier, seed):
-    out = []
+    out = [{"part": "V", "label": lb} for lb in V_LABELS]
     for fi, (name, rbs) in enumerate(rbgen.families(tier)):
         for v in vendors(tier):
             # split big families so that blocks stay small
@@ -208,7 +210,117 @@ def explore_rulebook(rules, vendor, tier, ctx, report):
                     "example_config": U[len(U) // 2]})
 
 
+# ---------------------------------------------------------------------------------------------------
+# part V: shipped rulebooks, vendor logic functions - every removed row gets a command
+#
+# What a vendor logic function emits for a change is device knowledge the reference device does not have.  For the logic
+# functions named below one necessary condition of convergence can still be stated without it: their commands are the row
+# itself (added / overwritten in place) or a negation made of the row's own words, possibly cut short ('undo peer X' for
+# 'peer X as-number 1'; 'undo peer X bfd min-tx-interval' for 'peer X bfd min-tx-interval 500 ...').  So every row the diff
+# reports REMOVED must be accounted for by some command of the patch at its place:
+#   * the negation word followed by words that are a subsequence of the row's words, beginning with the row's first word, or
+#   * a command (not a negation) with the row's first two words (the line is overwritten by another value), or
+#   * such a negation of an enclosing block.
+# A removed row with no such command is a removal the device never hears of.  (The list holds the logic functions of
+# block-structured vendors for which this reading is the documented one - see their docstrings - and for which the
+# unchanged tree satisfies it on every case of the universes below; transforming logics - aruba ap-env, VLAN range lists,
+# 'permanent' rows, rows that are themselves negations - are outside it.)
+V_LOGICS = {
+    "huawei.bgp.peer", "huawei.bgp.undo_commit", "huawei.aaa.domain", "huawei.misc.classifier", "huawei.misc.netstream_undo",
+    "huawei.misc.port_split", "huawei.misc.rp_node", "huawei.misc.snmpagent_sysinfo_version", "huawei.misc.static",
+    "huawei.misc.stelnet", "huawei.misc.vty_acl_undo", "%multiline",
+    "b4com.iface.description", "b4com.iface.lldp", "b4com.iface.mtu", "b4com.iface.sflow",
+    "cisco.misc.banner_login", "cisco.misc.no_ipv6_nd_suppress_ra", "cisco.misc.ssh_key", "cisco.misc.no_ntp_distribute",
+}
+V_LABELS = ["huawei", "cisco", "nexus", "b4com"]
+# row tails of the universes: two of them share their first word (two lines of one key that differ only further right)
+V_TAILS = ("", "10 11", "10 12 13", "20 21")
+V_NEG = {"huawei": "undo", "b4com": "no", "cisco": "no", "nexus": "no"}
+
+
+def _subseq(small, big):
+    it = iter(big)
+    return all(x in it for x in small)
+
+
+def removed_rows(diff, Op, path=()):
+    out = []
+    for ent in diff:
+        op, row, ch = ent[0], ent[1], ent[2]
+        if op == Op.REMOVED:
+            out.append((path, row))
+        else:
+            out += removed_rows(ch, Op, path + (row,))
+    return out
+
+
+def accounted(path, row, cmds, neg):
+    rw = row.split()
+    for p in cmds:
+        # a negation at the row's place, or of an enclosing block
+        for k in range(min(len(p), len(path) + 1)):
+            if tuple(p[:k]) != tuple(path[:k]):
+                break
+            target = rw if k == len(path) else path[k].split()
+            w = p[k].split()
+            if len(w) > 1 and w[0] == neg and w[1] == target[0] and _subseq(w[1:], target):
+                return True
+        if len(p) == len(path) + 1 and tuple(p[:-1]) == tuple(path):
+            w = p[-1].split()
+            if w and w[0] != neg and w[0] == rw[0] and (len(rw) < 2 or len(w) < 2 or w[1] == rw[1]):
+                return True
+    return False
+
+
+def judge_v(label, hw, fmt, u, old, new, report):
+    from annet.annlib.types import Op
+    from checks import c16_frontends as c16
+    case = {"part": "V", "label": label, "old": old, "new": new, "rule": u["rule"], "logic": u["logic"]}
+    try:
+        diff, patch = c16.device_side(hw, env.to_odict(old), env.to_odict(new), False)
+    except Exception as e:  # noqa   (a logic refusing a configuration is an outcome here; C16 compares the two front ends on it)
+        from mc import core
+        if core.raised_in_harness(e):
+            raise
+        return "raises", 0
+    cmds = [tuple(p) for p in fmt.cmd_paths(patch).keys()]
+    n = 0
+    for path, row in removed_rows(diff, Op):
+        n += 1
+        if not accounted(path, row, cmds, V_NEG[hw.vendor]):
+            report({"kind": "removed-row-without-command", "logic": u["logic"], "rule": u["rule"]}, case,
+                   "the diff reports %r removed at %r, no command of the patch refers to it: %r" % (row, list(path), [list(p) for p in cmds]))
+            return "unaccounted", n
+    return ("removals" if n else "no-removal"), n
+
+
+def run_v(block, ctx):
+    from checks import c16_frontends as c16
+    label = block["label"]
+    hw = c16.hw_of(label)
+    fmt = c16.formatter_of(hw)
+    nmax = 3 if ctx.tier == "quick" else 4
+    for idx, _cr in enumerate(c16.custom_rules(label)):
+        u = c16.universe(label, idx, V_TAILS)
+        if u is None or u["logic"] not in V_LOGICS:
+            continue
+        ctx.extra["V_rules"] += 1
+        for old, new, _n, _shape in c16.forest_cases(u, nmax):
+            if ctx.expired():
+                return
+            lab, n = judge_v(label, hw, fmt, u, old, new, ctx.violation)
+            ctx.evals += 1
+            ctx.states += 1
+            ctx.transitions += 1
+            if n:
+                ctx.nontrivial += 1
+            ctx.outcomes["V:" + lab] += 1
+    ctx.sample({"part": "V", "label": label, "logics": sorted(V_LOGICS)[:6]})
+
+
 def run_block(block, ctx):
+    if block.get("part") == "V":
+        return run_v(block, ctx)
     fams = rbgen.families(ctx.tier)
     name, rbs = fams[block["family"]]
     for rules in rbs[block["from"]:block["to"]]:
@@ -218,6 +330,13 @@ def run_block(block, ctx):
 
 
 def replay(case):
+    if case.get("part") == "V":
+        from checks import c16_frontends as c16
+        hw = c16.hw_of(case["label"])
+        out = []
+        judge_v(case["label"], hw, c16.formatter_of(hw), {"rule": case["rule"], "logic": case["logic"]}, case["old"], case["new"],
+                lambda sig, c, d: out.append((sig, d)))
+        return out
     rules = [refrb.Rule.from_json(d) for d in case["rb"]]
     vendor = case["vendor"]
     rbk, _ = compile_rb(rules, vendor)
